@@ -6,6 +6,7 @@ use std::panic::{catch_unwind, AssertUnwindSafe};
 
 mod ops_codec;
 mod ops_gossip;
+mod ops_parser;
 mod ops_raft;
 mod ops_wal;
 
@@ -21,6 +22,9 @@ fn dispatch(req: &Value) -> Value {
         return v;
     }
     if let Some(v) = ops_wal::handle(op, req) {
+        return v;
+    }
+    if let Some(v) = ops_parser::handle(op, req) {
         return v;
     }
     json!({"error": format!("unknown op {op}")})
